@@ -166,6 +166,53 @@ impl CC {
         Some((CC { hades, public_inputs, witnesses, scalars, polynomials, constraints }, consumed))
     }
 
+    /// The built-in scalar table a description with the given flag refers to:
+    /// 0, 1, -1, then (flag set) the round constants and MDS entries in
+    /// order, each value once.
+    pub fn builtin_table(hades: bool) -> Vec<BlsScalar> {
+        let mut t = vec![BlsScalar::zero(), BlsScalar::one(), -BlsScalar::one()];
+        if hades {
+            for s in hades_constants().into_iter().chain(hades_mds()) {
+                if !t.contains(&s) {
+                    t.push(s);
+                }
+            }
+        }
+        t
+    }
+
+    /// The same constraint system described with the other value of the
+    /// built-in-table flag: every selector index is resolved to its value and
+    /// re-indexed against the other table, values outside it becoming explicit
+    /// scalars. None if an index is out of range.
+    pub fn with_flag(&self, hades: bool) -> Option<CC> {
+        use dusk_bytes::Serializable;
+        let old = Self::builtin_table(self.hades);
+        let new = Self::builtin_table(hades);
+        let mut explicit: Vec<[u8; 32]> = Vec::new();
+        let mut polys = Vec::new();
+        for p in &self.polynomials {
+            let mut q = [0u64; 11];
+            for (k, idx) in p.iter().enumerate() {
+                let i = *idx as usize;
+                let bytes: [u8; 32] = if i < old.len() { old[i].to_bytes() } else { *self.scalars.get(i - old.len())? };
+                let pos = match new.iter().position(|t| t.to_bytes() == bytes) {
+                    Some(j) => j,
+                    None => match explicit.iter().position(|e| *e == bytes) {
+                        Some(j) => new.len() + j,
+                        None => {
+                            explicit.push(bytes);
+                            new.len() + explicit.len() - 1
+                        }
+                    },
+                };
+                q[k] = pos as u64;
+            }
+            polys.push(q);
+        }
+        Some(CC { hades, public_inputs: self.public_inputs.clone(), witnesses: self.witnesses, scalars: explicit, polynomials: polys, constraints: self.constraints.clone() })
+    }
+
     pub fn from_compressed(bytes: &[u8]) -> Option<CC> {
         let packed = miniz_oxide::inflate::decompress_to_vec(bytes).ok()?;
         let (cc, used) = CC::unpack(&packed)?;
